@@ -142,12 +142,21 @@ def leaks(value, src, lo, hi):
     return s_or(*conds) if conds else False
 
 
-def processor(proc, enc):
+def processor(proc, enc, hexbm=False, prior=None):
+    """prior: None, 'same-object' (the configuration object decodes a message before the processor is switched on in it) or 'copied-after-use'
+    (the packaged configuration decodes a message, then a deep copy of it gets the processor)"""
     def h():
         iso = M().iso8583
-        cfgs = copy.deepcopy(bit_config())
-        var = [b for b in configured_bits() if cfgs[str(b)]['field_type'] in ('LLVAR', 'LLLVAR') and not cfgs[str(b)].get('field_processor')]
+        base = bit_config()
+        var = [b for b in configured_bits() if base[str(b)]['field_type'] in ('LLVAR', 'LLLVAR') and not base[str(b)].get('field_processor')]
+        if prior:
+            var = [2, 32, 100]
         bit = choose('bit', var)
+        if prior == 'copied-after-use':
+            iso.loads(iso.dumps({'MTI': '1240', 'DE%d' % bit: '1234567890123456', 'DE3': '000000'}, encoding=enc), encoding=enc)
+        cfgs = copy.deepcopy(base)
+        if prior == 'same-object':
+            iso.loads(iso.dumps({'MTI': '1240', 'DE%d' % bit: '1234567890123456', 'DE3': '000000'}, encoding=enc, iso_config=cfgs), encoding=enc, iso_config=cfgs)
         cfgs[str(bit)]['field_processor'] = proc
         top = 10 ** flen(cfgs[str(bit)]) - 1
         n = sym_int('n', 10 if proc == 'PAN' else 1, min(top, 120))
@@ -160,11 +169,11 @@ def processor(proc, enc):
             msg[e2.key] = e2.value
 
         def rp():
-            return {'kind': 'processor', 'args': {'proc': proc, 'bit': bit, 'n': ev(n), 'other': other, 'enc': enc}}
+            return {'kind': 'processor', 'args': {'proc': proc, 'bit': bit, 'n': ev(n), 'other': other, 'enc': enc, 'hexbm': hexbm, 'prior': prior}}
         core.set_fallback(rp, 'C16/concretised')
-        wire = iso.dumps(dict(msg), encoding=enc, iso_config=cfgs)
+        wire = iso.dumps(dict(msg), encoding=enc, iso_config=cfgs, hex_bitmap=hexbm)
         with guard('loads under a masking configuration', 'C16/exception', rp):
-            d = iso.loads(wire, encoding=enc, iso_config=cfgs)
+            d = iso.loads(wire, encoding=enc, iso_config=cfgs, hex_bitmap=hexbm)
         got = d.get('DE%d' % bit)
         if proc == 'PAN':
             want = cat('t', sl(v, 0, 6), mk('t', [Fill('*', n - 10)]) if not same_int(n, 10) else '', sl(v, n - 4, n))
@@ -194,6 +203,12 @@ def obligations(tier):
     for proc in ('PAN', 'PAN-PREFIX'):
         obs.append(Ob('processor-typed/%s' % proc, typed_processor(proc), 120,
                       '%s on DE2/DE32/DE100 combined with python types none/string/int/long; concrete card numbers from a family (10..19 digits, repeated digits)' % proc, _funcs))
+    for proc in ('PAN', 'PAN-PREFIX'):
+        obs.append(Ob('processor/%s/hex-bitmap' % proc, processor(proc, 'cp500' if proc == 'PAN' else 'latin_1', hexbm=True), 600,
+                      '%s through the hexadecimal bitmap rendering' % proc, _funcs))
+        for prior in ('same-object', 'copied-after-use'):
+            obs.append(Ob('processor/%s/config-%s' % (proc, prior), processor(proc, 'latin_1', prior=prior), 300,
+                          '%s switched on in a configuration that has decoded a message before (%s)' % (proc, prior), _funcs))
     for proc in ('PAN', 'PAN-PREFIX'):
         for enc in (('latin_1', 'cp500') if q else CODECS):
             obs.append(Ob('processor/%s/%s' % (proc, enc), processor(proc, enc), 600,
